@@ -134,7 +134,7 @@ func (haltMonitor) AfterEnd(r *kernel.Run, _ abci.ResponseEndBlock)     { report
 func execTrace(tr *kernel.Trace, src kernel.Source, mons []kernel.Monitor, useBankHook bool) (*kernel.Run, *Outcome) {
 	o := &Outcome{Trace: tr}
 	spec := tr.Spec
-	run := &kernel.Run{Spec: &spec, Monitors: mons, StopOnViolation: true, UseBankHook: useBankHook}
+	run := &kernel.Run{Spec: &spec, Monitors: mons, StopOnViolation: true, UseBankHook: useBankHook, NodeOpts: tr.Node}
 	if pi := run.Start(); pi != nil || run.InfraErr != nil {
 		if run.InfraErr != nil {
 			o.InfraErr = run.InfraErr
